@@ -9,6 +9,7 @@ mod sched;
 mod checks;
 mod dd;
 mod dot;
+mod loomdrv;
 mod ops;
 mod gap;
 mod examples;
